@@ -66,11 +66,11 @@ type fakeMS struct {
 	pid  peer.ID
 }
 
-func (f *fakeMS) GetStream() stream.Stream       { return f.conn }
-func (f *fakeMS) GetProtocolID() protocol.ID     { return floodsub.FloodSubID }
-func (f *fakeMS) GetOpenOpts() stream.OpenOpts   { return stream.OpenOpts{} }
-func (f *fakeMS) GetPeerID() peer.ID             { return f.pid }
-func (f *fakeMS) GetLink() link.MountedLink      { return nil }
+func (f *fakeMS) GetStream() stream.Stream     { return f.conn }
+func (f *fakeMS) GetProtocolID() protocol.ID   { return floodsub.FloodSubID }
+func (f *fakeMS) GetOpenOpts() stream.OpenOpts { return stream.OpenOpts{} }
+func (f *fakeMS) GetPeerID() peer.ID           { return f.pid }
+func (f *fakeMS) GetLink() link.MountedLink    { return nil }
 
 var _ link.MountedStream = (*fakeMS)(nil)
 
@@ -186,4 +186,17 @@ func parallel(n, w int, job func(i int)) {
 	}
 	close(ch)
 	wg.Wait()
+}
+
+// safeSnap is VerifSnapshot with a timeout: nil when the router mutex can not be taken
+// (an Execute goroutine that panicked leaves it locked).
+func safeSnap(fs *floodsub.FloodSub) *floodsub.VerifSnapshot {
+	ch := make(chan *floodsub.VerifSnapshot, 1)
+	go func() { ch <- fs.VerifSnapshot() }()
+	select {
+	case s := <-ch:
+		return s
+	case <-time.After(1500 * time.Millisecond):
+		return nil
+	}
 }
